@@ -835,6 +835,22 @@ def _find_walk_loop(p, fi: FuncInfo):
                             if isinstance(x, ast.Name):
                                 names.add(x.id)
                         return inner, {g.qualname: assigned_in(inner.body), f.qualname: names}
+        # the generator folded by sum() / functools.reduce(), directly or through a generator expression or a local name:
+        # the accumulator of the fold is the loop-carried state on the consumer's side (the evaluator names it <acc>)
+        for node in ast.walk(f.node):
+            if isinstance(node, ast.Call) and not isinstance(node.func, ast.Call):
+                g = callee_of(f, node)
+                if g is not None and _is_generator(g.node):
+                    inner = _find_loop(g, (ast.While,))
+                    if inner is not None:
+                        names = {"<acc>"}
+                        for loop_ in ast.walk(f.node):
+                            if isinstance(loop_, ast.For):
+                                names |= assigned_in(loop_.body)
+                                for x in ast.walk(loop_.target):
+                                    if isinstance(x, ast.Name):
+                                        names.add(x.id)
+                        return inner, {g.qualname: assigned_in(inner.body), f.qualname: names, "<lazy>": g.qualname}
         if depth > 0:
             for node in ast.walk(f.node):
                 if isinstance(node, ast.Call):
@@ -855,6 +871,8 @@ def k14_walk(ctx, pid: str):
     if loop is None:
         raise AnalysisError("%s: the walk is no longer a while loop; the inductive-step evaluation does not apply" % fi.where())
     hooks = _entity_hooks(p)
+    if assigned_by.get("<lazy>"):
+        hooks["lazy_gens"] = {assigned_by.pop("<lazy>")}
     KAPPA = Term("kappa")
     P_LEN = Aff.sym("len:P")
 
